@@ -22,6 +22,7 @@ CLASSICAL_PRED_CLOSURES = {'SelfIdentityClosure', 'NonExistenceClosure'}
 def run(ctx, rep):
     m, lgs = ctx.m, ctx.lgs
     common.check_floors(ctx, rep, 'C05')
+    r6(ctx, rep)
     R0 = rep.rule('C05.R0', 'closure engine: FindClosingNodeRule targets exactly when a partner is found (folded); BranchValueHook caches the first target')
     from ..minieval import Interp as _I, Raises as _Rs
     RULES = 'pytableaux.proof.rules'
@@ -248,3 +249,23 @@ def r4(ctx, rep):
                 rep.finding(R4, f'C05.R4/{lg.short}.Model.finish/{k}', m.relfile(lg.modelcls.module), f'{lg.name}.Model.finish',
                             f'{case}: {p_} after finish() -- SelfIdentityClosure / NonExistenceClosure close branches on its negation')
     rep.floor('C05.R4', 'finish() pre-states of the logics with identity/existence closure', nfin, 20)
+
+
+def r6(ctx, rep):
+    """Closure rules learn of nodes through AFTER_NODE_ADD (the BranchTarget hook): a closing pair is found only if *every* node of a
+    branch is announced -- nodes appended live, and nodes already on a branch when it is handed to the tableau.  That is the
+    listener bookkeeping folded in C16.R2 (add_branch / after_node_add over mock branches), imported."""
+    from ..core import Report
+    from . import c16
+    R6 = rep.rule('C05.R6', 'every node of a branch is announced to the closure rules: the tableau\'s add_branch / after_node_add listeners folded over root, fork and '
+                            'pre-filled branches (C16.R2) -- so a closing pair cannot hide among nodes that were on the branch before it was added')
+    sub = Report('C16', rep.tier, rep.repo)
+    c16.run(ctx, sub)
+    for _ in range(sub.rules.get('C16.R2', {}).get('instances', 0)):
+        rep.instance(R6, ok=True)
+    rep.consulted |= sub.consulted
+    for f in sub.findings:
+        if f.rule == 'C16.R2' and ('add_branch' in f.key or 'after_node_add' in f.key):
+            rep.rules[R6]['failed'] += 1
+            rep.discharged -= 1
+            rep.finding(R6, f.key.replace('C16.', 'C05.R6/C16.', 1), f.where, f.construct, f.msg)
